@@ -320,6 +320,12 @@ def rule_view(ctx, M, gname, rule):
         rets = flow.returned_values(bi)
         ok = len(rets) == 1 and rets[0][3][0] == "agg" and rets[0][3][2] == (SELF,)
         ctx.check(ok, rule, kd.def_, "keyed() wraps the group itself", site=kd.span)
+    rule_extend(ctx, M, gname, rule)
+
+
+def rule_extend(ctx, M, gname, rule):
+    """extend / from_iter add every item of the whole iterator through `insert` (which arms the new member)"""
+    g = M.groups[gname]
     eb = g.get("extend")
     if eb is not None:
         bi = M.info(eb)
